@@ -7,6 +7,7 @@
   other nodes, any variable order) is covered; all operands, dictionaries and signs.
 -/
 import DDProofs.Witness
+import DDProofs.UsedObs
 namespace DD
 open Std
 
@@ -281,5 +282,100 @@ example : ∃ (m : Mgr) (u : Int), Inv m ∧ m.lastLen = none ∧ VarsBij m.tbl 
   · intro p hp; simp at hp; subst hp; exact ⟨hc, hu⟩
   · intro p hp; simp at hp; subst hp; exact hc
   · rw [hd, hd]; simp [ovr, List.lookup]
+
+/-! ### non-vacuity on a USED manager
+
+`usedM` (DDProofs.UsedExample): levels 0..3 = c, a, d, b; thirteen nodes; `f` = node 13 =
+`ite(c ≡ d, a ∧ b, ¬b)`, 4 = `a ∧ b`, 14 = `a ∨ d`; hypotheses from the reachability theorem
+(`usedM_good`, `usedM_varsBij`).  The substituted variables `a`, `d` are IN THE MIDDLE of the
+order, the operand and the substituted functions are complemented and have different supports.
+The kernel cannot run the `HashMap` memos of `_cofactor` / `_compose` / `_copy_bdd`, so each TABLE
+of a result (rows c a d b) is derived from the theorem's conclusion and then computed by the
+kernel from the tables of the operands. -/
+
+private theorem usedM_decl (l : List String)
+    (h : l.all (fun s => usedM.tbl.vars.contains s) = true) :
+    ∀ s, s ∈ l → usedM.tbl.vars.contains s = true := fun s hs => List.all_eq_true.mp h s hs
+
+/-- `cofactor(¬f, {a: True, d: False})` by names and `cofactor(f, {2: True, 1: False, 2: False})`
+by levels (a later duplicate wins); `let` with Boolean values.  (`#eval`: the answers are the NEW nodes 15 and −15.) -/
+example :
+    (∃ r m', cofactor (-13) ([("a", true), ("d", false)].map fun p => (Key.name p.1, p.2)) usedM
+        = (.ok r, m') ∧ Inv m' ∧ Ext usedM.tbl m'.tbl ∧ m'.tbl.Mem r ∧ Frame usedM m' ∧
+      tt4 m'.tbl r = rows4.map (fun a => den usedM.tbl (-13) (upd (upd a 1 true) 2 false)) ∧
+      tt4 m'.tbl r = [true, false, true, false, true, false, true, false,
+                      false, true, false, true, false, true, false, true]) ∧
+    (∃ r m', letOp (.bools [(.lvl 2, true), (.lvl 1, false), (.lvl 2, false)]) 13 usedM
+        = (.ok r, m') ∧ Inv m' ∧ Frame usedM m' ∧
+      tt4 m'.tbl r = rows4.map (fun a => den usedM.tbl 13 (upd (upd a 1 false) 2 false))) := by
+  constructor
+  · obtain ⟨r, m', he, hI, hx, hm, hf, h⟩ := C04_cofactor_names usedM usedM_good.inv usedM_good.off
+      (-13) (usedM_mem (by decide)) [("a", true), ("d", false)] (by
+        intro p hp
+        exact usedM_decl ["a", "d"] (by decide +kernel) p.1 (List.mem_map.mpr ⟨p, hp, rfl⟩))
+    have ht := tt4_of_den h
+    exact ⟨r, m', he, hI, hx, hm, hf, ht.trans (by decide +kernel), ht.trans (by decide +kernel)⟩
+  · obtain ⟨r, m', he, hI, -, -, hf, h⟩ := C04_let_bools usedM usedM_good.inv usedM_good.off 13
+      (usedM_mem (by decide)) [(.lvl 2, true), (.lvl 1, false), (.lvl 2, false)] [2, 1, 2]
+      (by decide +kernel)
+    exact ⟨r, m', he, hI, hf, (tt4_of_den h).trans (by decide +kernel)⟩
+
+/-- `compose(f, {d: ¬(a ∧ b), a: a ∨ d})` — SIMULTANEOUS substitution for the two middle
+variables of functions that mention the substituted variables themselves — and the one-variable
+path `compose(¬f, {d: ¬(a ∧ b)})`; `let` with references.  The tables are those of `f` read at
+the substituted values.  (`#eval`: the answers are −18, 16, −18 — new nodes.) -/
+example :
+    (∃ r m', compose 13 [("d", -4), ("a", 14)] usedM = (.ok r, m') ∧ Inv m' ∧
+      Ext usedM.tbl m'.tbl ∧ m'.tbl.Mem r ∧ Frame usedM m' ∧
+      tt4 m'.tbl r = rows4.map (fun a =>
+        den usedM.tbl 13 (upd (upd a 1 (den usedM.tbl 14 a)) 2 (den usedM.tbl (-4) a)))) ∧
+    (∃ r m', compose (-13) [("d", -4)] usedM = (.ok r, m') ∧ Inv m' ∧
+      tt4 m'.tbl r = rows4.map (fun a => den usedM.tbl (-13) (upd a 2 (den usedM.tbl (-4) a))) ∧
+      tt4 m'.tbl r ≠ tt4 usedM.tbl (-13)) ∧
+    (∃ r m', letOp (.refs [("d", -4), ("a", 14)]) 13 usedM = (.ok r, m') ∧ Inv m' ∧
+      tt4 m'.tbl r = rows4.map (fun a =>
+        den usedM.tbl 13 (upd (upd a 1 (den usedM.tbl 14 a)) 2 (den usedM.tbl (-4) a)))) := by
+  have hd : ∀ p, p ∈ [("d", (-4 : Int)), ("a", 14)] → usedM.tbl.vars.contains p.1 = true := by
+    intro p hp
+    exact usedM_decl ["d", "a"] (by decide +kernel) p.1 (List.mem_map.mpr ⟨p, hp, rfl⟩)
+  have hm : ∀ p, p ∈ [("d", (-4 : Int)), ("a", 14)] → usedM.tbl.Mem p.2 := by
+    intro p hp
+    simp only [List.mem_cons, List.not_mem_nil, or_false] at hp
+    rcases hp with rfl | rfl <;> exact usedM_mem (by decide)
+  refine ⟨?_, ?_, ?_⟩
+  · obtain ⟨r, m', he, hI, hx, hmr, hf, h⟩ := C04_compose usedM usedM_good.inv usedM_good.off 13
+      (usedM_mem (by decide)) _ hd hm
+    exact ⟨r, m', he, hI, hx, hmr, hf, (tt4_of_den h).trans (by decide +kernel)⟩
+  · obtain ⟨r, m', he, hI, -, -, -, h⟩ := C04_compose_single usedM usedM_good.inv usedM_good.off
+      (-13) (-4) (usedM_mem (by decide)) (usedM_mem (by decide)) "d" 2 (by decide +kernel)
+    have ht := tt4_of_den h
+    exact ⟨r, m', he, hI, ht, by rw [ht]; decide +kernel⟩
+  · obtain ⟨r, m', he, hI, -, -, -, h⟩ := C04_let_refs usedM usedM_good.inv usedM_good.off 13
+      (usedM_mem (by decide)) _ hd hm
+    exact ⟨r, m', he, hI, (tt4_of_den h).trans (by decide +kernel)⟩
+
+/-- `rename(¬f, {a: d, d: a})` — the SWAP of the two middle variables — and the non-injective
+`let(f, {a: 'b'})`: each row of the result's table is the row of the operand with the levels
+exchanged / merged.  (`#eval`: the answers are −21 and 15 — new nodes.) -/
+example :
+    (∃ r m', rename (-13) [("a", "d"), ("d", "a")] usedM = (.ok r, m') ∧ Inv m' ∧
+      Ext usedM.tbl m'.tbl ∧ m'.tbl.Mem r ∧ Frame usedM m' ∧
+      tt4 m'.tbl r = rows4.map (fun a => den usedM.tbl (-13) (upd (upd a 1 (a 2)) 2 (a 1))) ∧
+      tt4 m'.tbl r ≠ tt4 usedM.tbl (-13)) ∧
+    (∃ r m', letOp (.names [("a", "b")]) 13 usedM = (.ok r, m') ∧ Inv m' ∧
+      tt4 m'.tbl r = rows4.map (fun a => den usedM.tbl 13 (upd a 1 (a 3)))) := by
+  constructor
+  · obtain ⟨r, m', he, hI, hx, hm, hf, h⟩ := C04_rename usedM usedM_good.inv usedM_good.off
+      usedM_varsBij (-13) (usedM_mem (by decide)) [("a", "d"), ("d", "a")] (by
+        intro p hp
+        exact usedM_decl ["d", "a"] (by decide +kernel) p.2 (List.mem_map.mpr ⟨p, hp, rfl⟩))
+    have ht := (tt4_of_den h).trans (show _ = rows4.map (fun a =>
+      den usedM.tbl (-13) (upd (upd a 1 (a 2)) 2 (a 1))) by decide +kernel)
+    exact ⟨r, m', he, hI, hx, hm, hf, ht, by rw [ht]; decide +kernel⟩
+  · obtain ⟨r, m', he, hI, -, -, -, h⟩ := C04_let_names usedM usedM_good.inv usedM_good.off
+      usedM_varsBij 13 (usedM_mem (by decide)) [("a", "b")] (by
+        intro p hp
+        exact usedM_decl ["b"] (by decide +kernel) p.2 (List.mem_map.mpr ⟨p, hp, rfl⟩))
+    exact ⟨r, m', he, hI, (tt4_of_den h).trans (by decide +kernel)⟩
 
 end DD
